@@ -736,6 +736,12 @@ example : toDynLists .rcRefCell = true ∧ variantExists ["alloc"] .rcRefCell = 
 -- (which variants the macro lists TODAY — `Ptr`, `RcRefCell`, `PtrRwLock` — is a snapshot of the regenerated table, not a requirement of
 --  the property: listing more variants is conformant. Those facts live in Thm/Lemmas/C17Snapshot.lean, outside the obligations.)
 
+/-- ... but the list may not SHRINK: the macro still lists (at least) the three variants it listed when the property was written.
+Without this, deleting an arm everywhere would "de-list" the variant and every other statement about `to_dyn!` would stay true while a
+conversion that used to work turns into `unimplemented!()`. (Listing more variants is fine.) -/
+theorem to_dyn_lists_baseline :
+    toDynLists .ptr = true ∧ toDynLists .rcRefCell = true ∧ toDynLists .ptrRwLock = true := by decide
+
 /-- every arm names a variant of the enum, and a definition only has arms for variants that exist in the builds it is
 compiled into -/
 theorem to_dyn_arms_are_variants :
